@@ -234,11 +234,13 @@ pub struct TrainSpec {
     pub dests: Vec<usize>,
     pub length: f64,
     pub depart: f64,
+    /// the train's own maximum speed [m/s] (None: the fixture's)
+    pub speed_max: Option<f64>,
 }
 impl TrainSpec {
     pub fn to_json(&self) -> Value {
         json!({"id": self.id, "eastbound": self.eastbound, "origs": self.origs, "dests": self.dests,
-               "length": fjson(self.length), "depart": fjson(self.depart)})
+               "length": fjson(self.length), "depart": fjson(self.depart), "speed_max": self.speed_max.map(fjson)})
     }
 }
 
@@ -254,6 +256,7 @@ pub fn build_train(t: &TrainSpec) -> SpeedLimitTrainSim {
     s.train_id = t.id.clone();
     let mut tp = TrainParams::valid();
     tp.length = t.length * uc::M;
+    if let Some(v) = t.speed_max { tp.speed_max = v * uc::MPS; }
     s.path_tpc = PathTpc::new(tp);
     s.state.length = t.length * uc::M;
     s.state.offset = t.length * uc::M;
@@ -275,7 +278,7 @@ pub fn gen_train(r: &mut Rng, sp: &NetSpec, k: usize, depart: f64) -> TrainSpec 
         (e.iter().map(|&i| sp.rev_idx[i]).collect(), w.iter().map(|&i| sp.rev_idx[i]).collect())
     };
     let length = *r.pick(&[400.0, 1000.0, 2000.0, 2000.0, 3000.0, 5000.0]);
-    TrainSpec { id: format!("T{}", k + 1), eastbound, origs, dests, length, depart }
+    TrainSpec { id: format!("T{}", k + 1), eastbound, origs, dests, length, depart, speed_max: None }
 }
 
 // ------------------------------------------------------------------ Coq printing
